@@ -1,7 +1,8 @@
 #!/usr/bin/env python3
 """Evaluate a batch of ordinary mutants written for one property: for each m<K>.diff in <dir>, apply it to a scratch worktree of /repo,
 confirm it (pinned suite unchanged, demo<K>.py exits 1 with / 0 without), run the property's quick check against it, record the outcome under
-/verif/seeded/plain/<id>-m<K>/.   usage: mutant_eval.py <id e.g. C01-i> <property id> <dir with m*.diff demo*.py> [extra checks...]"""
+/verif/seeded/plain/<id>-m<K>/.   usage: mutant_eval.py <id e.g. C01-i> <property id> <dir with m*.diff demo*.py> [extra checks for all mutants ...] [m<K>=Cxx,Cyy ...]
+(m<K>=... names further checks for mutant K only: the checks of the properties whose clause that mutant breaks)"""
 import json
 import os
 import re
@@ -32,13 +33,14 @@ def demo(wt, path):
 
 def main():
     sid, prop, src = sys.argv[1:4]
-    checks = [prop] + sys.argv[4:]
+    checks = [prop] + [a for a in sys.argv[4:] if "=" not in a]
+    per_mutant = {a.split("=")[0]: a.split("=")[1].split(",") for a in sys.argv[4:] if "=" in a}
     wt = tempfile.mkdtemp(prefix="mut-wt-")
     os.rmdir(wt)
     sh(f"git -C /repo worktree add --detach {wt} HEAD -f")
     base_counts, base_failed = pytest_counts(wt)
     try:
-        for k in range(1, 9):
+        for k in range(1, 9):  # up to eight mutants per batch
             diff = os.path.join(src, f"m{k}.diff")
             dm = os.path.join(src, f"demo{k}.py")
             if not (os.path.exists(diff) and os.path.exists(dm)):
@@ -57,7 +59,7 @@ def main():
                 results = {}
                 if meta["confirmed"]:
                     outdir = tempfile.mkdtemp(prefix="mut-out-")
-                    for pid in checks:
+                    for pid in checks + per_mutant.get(f"m{k}", []):
                         env = dict(os.environ, VERIF_REPO=wt, VERIF_OUT=outdir, VERIF_SEED=os.environ.get("VERIF_SEED", "0"))
                         q = subprocess.run([os.path.join(VERIF, "check"), pid, "--tier", "quick"], env=env, capture_output=True, text=True, timeout=3600)
                         results[pid] = {"exit": q.returncode, "violation_signatures": re.findall(r"^  -- (.*)$", q.stdout, re.M)[:5],
